@@ -32,7 +32,11 @@ SPEC = {
                    "(approvals withdrawn / added) and the next week expires in between; 6% of the stack counters are "
                    "deep ditto-compressed stacks whose decoded name lands on either side of the 4096-byte name limit "
                    "(stored name within it); the files given to the model are the REFERENCE reading of what was "
-                   "written (own decoder), the real parser's reading is an observable; 10% of the cases (kind seq) are HISTORIES: this one process runs a new "
+                   "written (own decoder), the real parser's reading is an observable; 5% of the cases (kind weeks): the expired files of one run end on the same DATE at different "
+                   "instants and zone offsets (00:00Z, 03:00Z, 23:59:59Z, +02:00, +05:30, -08:00 ...), in a third "
+                   "of them on two dates a week apart: one report per date from all files of that date; a core "
+                   "program whose base name starts with `local.` (example.com/tools/local.agent); "
+                   "10% of the cases (kind seq) are HISTORIES: this one process runs a new "
                    "uploader two or three times on the same directory while the count files change in between "
                    "(run while the files are active - programs count on - files expire - run; or run consuming a "
                    "week - same file names written for the next week - run), each run compared with the model and "
@@ -50,7 +54,8 @@ SPEC = {
                   "iff no counters; programs of a report filtered independently of each other and of their order; "
                   "histories: with the parse cache explicit, every run of a process reports the expired files of "
                   "the directory as it is at that run (cache transparent when consistent, empty at each Run; a "
-                  "stale cache is exhibited to differ); a Run fetches the newest configuration version of the store "
+                  "stale cache is exhibited to differ); the expired files of a run are grouped by the date label of their TimeEnd, one report per "
+                  "label covering exactly the files of that label; a Run fetches the newest configuration version of the store "
                   "it finds and its upload is filtered by that version, whatever earlier Runs fetched; expansion specified for the documented syntax and in general; the shared rate "
                   "table characterised (one of the configured rates; THE rate when unambiguous); the executable "
                   "oracle used on the implementation's reports is proved sound (acceptance implies the property's "
